@@ -95,7 +95,9 @@ func (s *DiskKeyIndex) binarySearch(target []byte) (uint64, *proto.IndexEntry, b
 		at, err := s.findAt(h)
 		if err != nil {
 			if errors.Is(err, io.EOF) {
-				return n, nil, false, nil
+				// no record starts at or after h (h lies inside the last record): x[h] compares as +infinity
+				j = h
+				continue
 			}
 			return 0, nil, false, err
 		}
@@ -123,11 +125,15 @@ func (s *DiskKeyIndex) findAt(off uint64) (*proto.IndexEntry, error) {
 
 	record := &proto.IndexEntry{}
 	_, _, err := s.reader.SeekNext(record, off)
+	if err != nil {
+		// never cache a failed probe, a later hit would return the empty record without the error
+		return record, err
+	}
 	if len(s.offsetCache) < s.offsetCacheMaxSize {
 		s.offsetCache[off] = record
 	}
 
-	return record, err
+	return record, nil
 }
 
 func (s *DiskKeyIndex) newIterator(offset, endOffset uint64) *DiskKeyIndexIterator {
